@@ -149,7 +149,7 @@ def directed(ctx, tla, quick):
 def run(ctx, replay=None):
     tla = ctx.stage_specs()
     quick = ctx.tier == "quick"
-    cfgs = ["c1b1", "c1b0", "c0b1", "live"] if quick else ["c1b1", "c1b0", "c2b1", "c1b2", "c0b1", "c2b2", "c1b1_ttake", "live"]
+    cfgs = ["c1b1", "c1b0", "c0b1", "live", "wait_c1b1", "wait_live"] if quick else ["c1b1", "c1b0", "c2b1", "c1b2", "c0b1", "c2b2", "c1b1_ttake", "live", "wait_c1b1", "wait_c0b1", "wait_live"]
     for cfg in cfgs:
         r = ctx.tlc("MC_BQueue", "MC_BQueue_%s.cfg" % cfg, workers=12, timeout=900, cwd=tla)
         if not r.completed:
@@ -173,6 +173,10 @@ def run(ctx, replay=None):
         for f, ok, hwm, length, r in res:
             lines = core.read_ndjson(f)
             ctx.cov["evaluations"] += hwm
+            bw = [x for x in lines if x["ev"] == "blockedwait"]
+            if bw and not f.endswith(".rest"):
+                ctx.observations.append("%d round(s): Take() calls stayed blocked with %s item(s) in the overflow part until further calls were made (the statement promises "
+                                        "only that repeated calls retrieve everything; BQueue.tla's wait_oneshot counterexample is the legal schedule of this kind)" % (len(bw), bw[0]["v"]))
             if ok:
                 rounds_ok += sum(1 for x in lines if x["ev"] == "reset")
                 continue
@@ -187,9 +191,9 @@ def run(ctx, replay=None):
             rnd = lines[s:e]
             off = lines[min(k, len(lines) - 1)]
             nth = sum(1 for x in rnd if x["ev"] == "inv")
-            head = ("consumers still blocked in Take() although %s items remain and the producer has stopped" % off.get("v")) if off.get("ev") == "stuck" else \
+            head = "repeated Take/Poll calls after the producer stopped did not retrieve every accepted item" if off.get("ev") == "stuck" else \
                 "history not explainable by the two-part FIFO at %s %s r=%s" % (off.get("ev"), off.get("op"), off.get("r"))
-            ctx.report("%s [C=%d B=%d threads=%d]" % (head if off.get("ev") != "stuck" else "consumers still blocked in Take() although items remain", rnd[0]["c"], rnd[0]["b"], len({x["thr"] for x in rnd}) - 1),
+            ctx.report("%s [C=%d B=%d threads=%d]" % (head, rnd[0]["c"], rnd[0]["b"], len({x["thr"] for x in rnd}) - 1),
                        "round (C=%d, B=%d): no linearisation explains the recorded history up to line %d: %s ... offending line %s" % (
                            rnd[0]["c"], rnd[0]["b"], k - s, json.dumps(rnd[max(0, k - s - 6):k - s + 1]), json.dumps(off)), {"component": "c07", "round": rnd[:300]})
             bad += 1
@@ -201,6 +205,11 @@ def run(ctx, replay=None):
                 pending.append(nf)
     ctx.cov["traces_validated_against_impl"] += rounds_ok
     ctx.cov["distinct_nontrivial"] += rounds_ok
+    r1 = ctx.tlc("MC_BQueue", "MC_BQueue_wait_oneshot.cfg", workers=4, timeout=300, cwd=tla)
+    if not r1.prop_violated:
+        raise core.Inconclusive("BQueue.tla (one-shot blocking takers): expected the liveness counterexample that documents the statement's carve-out")
+    ctx.notes.append("BQueue.tla with waiting receivers (Go channel hand-off): safety and liveness hold for consumers that keep calling; for consumers that call Take() once TLC "
+                     "exhibits a legal schedule in which a call blocks after the loader's last pass and is woken only by the next call (hence 'repeated calls' in the statement)")
     try:
         hook_binding(ctx, tla, quick)
     except core.Inconclusive as ex:
